@@ -396,6 +396,10 @@ func (sel *Selection) endEdit(r NodeRequest, bubble bool) error {
 }
 
 func (sel *Selection) Delete() (err error) {
+	if sel.parent == nil {
+		// the delete request is sent to the parent's node
+		return fmt.Errorf("%w. cannot delete %s, it has no parent", fc.BadRequestError, sel.Path.Meta.Ident())
+	}
 
 	// allow children to recieve indication their parent is being deleted by
 	// sending node request w/delete=true
